@@ -13,6 +13,19 @@ CHECKS = {
    technique=TECH + "; lock-step reference map over operation histories"),
 }
 
+CHECKS["C15"] = dict(level="exploration", ref="6/C15",
+   text="Seeded per-frame VAD decision scripts (injected through the link-time wrapped classifier; 10% of runs use the real WebRTC VAD with decisions recorded) x endpointer "
+        "configurations x end-of-stream points; an exact queue model is stepped in lock-step, every returned frame is byte-compared with the frame the model names, "
+        "timestamps and state after every call; exact-size heap frames under ASan. Sampling, not proof.",
+   note="Trusts the queue model (thresholds floor(ratio*L) / floor((1-ratio)*L+1/2)) and the reading of end_stream as 'leading run of queued speech frames'.",
+   technique=TECH + "; lock-step queue model over scripted VAD decision sequences")
+CHECKS["C06"] = dict(level="exploration", ref="6/C06",
+   text="Seeded schedules (chunk cuts down to 1 sample, per-call output capacity incl. 0, count-only queries, int16/float32 entry, re-buffered remainders) x front-end configuration swarm x "
+        "1-3 utterances on one fe_t; frames must be bit-identical to a one-call execution on a pristine fe_t of the same build, frame count must equal an independent formula, "
+        "every buffer is exact-size under ASan. Sampling, not proof.",
+   note="The reference is the build under test under the canonical schedule: an error that is the same under every schedule is out of scope (the property is an invariance). Dither off.",
+   technique=TECH + "; differential against the canonical schedule of the same build")
+
 NA = {
  "C02": "pure function of grammar, dictionary, model and frame scores: no schedule, fault, history or crash point; needs an independent max-plus reference (differential testing), another technique family",
  "C05": "pure function of one JSGF text (a compiler-correctness property): nothing to schedule or fault; language enumeration against a JSGF interpreter is the right tool",
